@@ -163,7 +163,11 @@ def check_c07(tier, seed, repo):
                                 "hms": [p.hour_of_day, p.minute_of_hour, p.second_of_minute],
                                 "zone": [p.time_zone.hours, p.time_zone.minutes]},
                                 {"date": dvals, "time": [eh, em, es], "zone": want_tz})
-                        back = str(pd)
+                        try:
+                            back = str(pd)
+                        except Exception as e:
+                            fail("asparsed|" + text, inp, "%s: %s" % (type(e).__name__, e), text)
+                            continue
                         if back != text:
                             # trailing zeros of a decimal fraction may be dropped
                             a = text.rstrip("0") if tf.get("decimal") and not zf["given"] \
